@@ -7,6 +7,7 @@ package flags
 import (
 	"fmt"
 	"reflect"
+	"sort"
 	"strconv"
 	"strings"
 	"time"
@@ -132,7 +133,17 @@ func convertToString(val reflect.Value, options multiTag) (string, error) {
 	case reflect.Map:
 		ret := "{"
 
-		for i, key := range val.MapKeys() {
+		// render the entries in a fixed (sorted) order
+		keys := val.MapKeys()
+
+		sort.Slice(keys, func(i, j int) bool {
+			ki, _ := convertToString(keys[i], options)
+			kj, _ := convertToString(keys[j], options)
+
+			return ki < kj
+		})
+
+		for i, key := range keys {
 			if i != 0 {
 				ret += ", "
 			}
